@@ -204,7 +204,9 @@ func (w *c16World) root(check bool) (res c16RootResult) {
 		}
 		full = c16Sorted(saved) // what was persisted under that root
 	case "build":
-		in, root, err := w.cs.BuildStateRootInputKeyValsAndRoot(full)
+		// input = the harness keys only (T(zero state) is not decodable: empty fixed-size components); the
+		// function itself adds T(state parsed from them) = T(zero state), so the merkle input is base ∪ mine again
+		in, root, err := w.cs.BuildStateRootInputKeyValsAndRoot(mine)
 		if err != nil {
 			res.err = err
 			return
